@@ -16,7 +16,7 @@ FIXED_KEY = bytes(range(16))
 
 def plan(tier):
     return {
-        'level': 'exploration', 'shards': 16, 'budget_s': 70 if tier == 'quick' else 600,
+        'level': 'exploration', 'shards': 16, 'budget_s': 120 if tier == 'quick' else 600,
         'rule': 'pairs (prefix history ending in a chosen kind of request, probe request); the probe '
                 'is sent to the long-lived engine and to a fresh engine on a byte copy of the same '
                 'database under the same virtual clock; a cell is (kind of last prefix request, probe, '
@@ -28,8 +28,8 @@ def plan(tier):
 
 
 def cases(tier, seed):
-    n = 64 if tier == 'quick' else 800
-    return [{'hist': i} for i in range(n)] + [{'conn': i} for i in range(32 if tier == 'quick' else 400)]
+    n = 192 if tier == 'quick' else 1200
+    return [{'hist': i} for i in range(n)] + [{'conn': i} for i in range(128 if tier == 'quick' else 800)]
 
 
 LAST_KINDS = ['create', 'register', 'create_key_pair', 'derive_key', 'batch_create_get',
